@@ -150,6 +150,12 @@ fn run_case(t: &mut Tape, code: usize, ctx: &mut Ctx) -> PResult {
     if crlf {
         ctx.label("crlf-line-endings");
     }
+    if (style >> 3) & 16 != 0 {
+        ctx.label("tab-separated-entries");
+    }
+    if qp.cons.iter().any(|c| [&c.lower, &c.upper].iter().any(|s| matches!(s, Some(Side::Finite(v)) if v.text.contains('.') && !v.text.ends_with(".5") && !v.text.ends_with(".25") && !v.text.ends_with(".75")))) {
+        ctx.label("decimal-constraint-sides");
+    }
     let clean = eol(write_qplib(&qp, comments, blanks, trailing, style >> 3, &QInject::None));
     ctx.fp_str(&clean.text);
     ctx.fp(&[err_mode as u8]);
@@ -252,7 +258,7 @@ impl Property for C19 {
     }
     fn required_labels(&self) -> Vec<String> {
         let mut v: Vec<String> = (0..120).map(|c| format!("code={}", code_name(c))).collect();
-        v.extend(["default-b0!=0", "infinite-side", "both-sides", "names", "diagonal-entry", "error=truncation", "error=type-wrong-letter", "error=type-too-short", "error=bad-sense", "error=bad-n", "error=bad-q0-entry", "error=bad-infinity", "error=bad-cl-entry", "error=bad-type-entry", "comments", "trailing-text", "integer-01-bounds", "matrix-entries-below-epsilon", "crlf-line-endings", "name-with-exponent-like-fragment"].iter().map(|s| s.to_string()));
+        v.extend(["default-b0!=0", "infinite-side", "both-sides", "names", "diagonal-entry", "error=truncation", "error=type-wrong-letter", "error=type-too-short", "error=bad-sense", "error=bad-n", "error=bad-q0-entry", "error=bad-infinity", "error=bad-cl-entry", "error=bad-type-entry", "comments", "trailing-text", "integer-01-bounds", "matrix-entries-below-epsilon", "crlf-line-endings", "name-with-exponent-like-fragment", "tab-separated-entries", "decimal-constraint-sides"].iter().map(|s| s.to_string()));
         v
     }
     fn cases(&self, tier: Tier) -> usize {
